@@ -2,7 +2,7 @@
 """Print the DESIGN.md §9.7 table from seeded/*/meta.json (name, round, target, how reported, first signature, also reported by, suite)."""
 import glob, json, os, re
 V = os.path.dirname(os.path.dirname(os.path.abspath(__file__)))
-ROUND = {"s": None, "s3": 3, "s4": 4, "s5": 5, "s6": 6, "s7": 7, "s8": 8, "s9": 9}
+ROUND = {"s": None, **{f"s{k}": k for k in range(3, 30)}}
 R12 = {"C02": 1, "C03": 1, "C04": 1, "C06": 1, "C11": 1, "C12": 1, "C13": 1, "C17": 1, "C18": 1, "C19": 1}
 
 
